@@ -82,6 +82,21 @@ def parseCalls : Nat → List String → Option (List (String × Float × Float)
 
 def step (t : List String) : String :=
   match t with
+  | "longexp" :: rest =>
+      -- longexp Cn z f lambdabar h nu1 nu2 ... : longexposure_otf at each frequency
+      match parseFloats rest with
+      | some d =>
+          if d.size < 5 then "bad-op" else
+          fmtList fmtFloat ((d.toList.drop 5).map fun nu => longExposureOtf Float.exp Float.pow piF nu d[0]! d[1]! d[2]! d[3]! d[4]!)
+      | none => "bad-op"
+  | "komogorov" :: rest =>
+      match parseFloats rest with
+      | some d => if d.size < 1 then "bad-op" else fmtList fmtFloat ((d.toList.drop 1).map fun r => komogorov Float.pow r d[0]!)
+      | none => "bad-op"
+  | "estcn" :: rest =>
+      match parseFloats rest with
+      | some d => if d.size != 3 then "bad-op" else fmtFloat (estimateCn d[0]! d[1]! d[2]!)
+      | none => "bad-op"
   | "difflim" :: rest =>
       -- difflim fno wavelength f1 f2 ... : diffraction_limited_mtf at each frequency
       match parseFloats rest with
